@@ -104,6 +104,8 @@ func resolveDependentFields(
 				if !ok {
 					return nil, fmt.Errorf("dependency %s not found", qualifiedType)
 				}
+			default:
+				return nil, fmt.Errorf("dependency %s not found", fieldType)
 			}
 			// a type that (directly or indirectly) contains itself has no finite field tree
 			if resolving[dependencyName] {
